@@ -10,6 +10,20 @@ Local Open Scope N_scope.
 
 Definition is_nil {A} (l : list A) : bool := match l with [] => true | _ => false end.
 
+(* Which of the repairs fixes/C16-<slug>.diff of the last round are in the code.  The model of TypeConvertStr
+   (Model/AnnPrint.v) and of ParseCommentFragment (Model/AnnParser.v) is parametrised by them; `deployed` is the
+   code now in /repo (the legs of checks/c16.py compare the implementation with the model at `deployed`), the
+   other variants are kept so that the theorems say what each repair buys.
+     fx_const   printer-const          string constants are printed with their quotes ('abc', '"r"')
+     fx_union   printer-nested-union   a union directly inside a union keeps its parentheses ((a | b) | c)
+     fx_fun     printer-fun            fun types are printed in the annotation syntax (fun(a: T, b?, ...): R)
+     fx_cont    cont-after-bad         a continuation line (-| 'x') is appended only to the alias of the line
+                                       directly above it *)
+Record ann_fixes := mkFixes { fx_const : bool; fx_union : bool; fx_fun : bool; fx_cont : bool }.
+Definition no_fixes : ann_fixes := mkFixes false false false false.
+Definition all_fixes : ann_fixes := mkFixes true true true true.
+Definition deployed : ann_fixes := mkFixes true true false true.
+
 Inductive atype :=
 | ANormal (name : bytes) (show_color : bool)                  (* NormalType *)
 | AMulti (ts : list atype)                                    (* MultiType *)
